@@ -170,12 +170,12 @@ class Check(object):
         wall = time.time() - self.t0
         self._write_evidence(nviol, len(known_hit), wall)
         n_ok = sum(1 for o in self.obligations if o.ok)
-        print("%s [%s] %d obligations, %d discharged, %d known finding(s), %d violation(s), %.2fs"
-              % (self.pid, self.tier, len(self.obligations), n_ok, len(known_hit), nviol, wall))
+        out = ["%s [%s] %d obligations, %d discharged, %d known finding(s), %d violation(s), %.2fs"
+               % (self.pid, self.tier, len(self.obligations), n_ok, len(known_hit), nviol, wall)]
         for rid in sorted(self.rule_desc):
-            print("  rule %-10s instances=%-4d %s" % (rid, self.rule_instances.get(rid, 0), self.rule_desc[rid]))
-        for l in lines:
-            print(l)
+            out.append("  rule %-10s instances=%-4d %s" % (rid, self.rule_instances.get(rid, 0), self.rule_desc[rid]))
+        out.extend(lines)
+        _emit(out)
         if nviol:
             return 1
         if self.errors:
@@ -237,6 +237,18 @@ class Check(object):
             json.dump(ev, f, indent=1, sort_keys=True, default=str)
 
 
+def _emit(lines):
+    """print; a reader that went away (closed pipe) must not turn into a different exit code"""
+    try:
+        sys.stdout.write("\n".join(lines) + "\n")
+        sys.stdout.flush()
+    except (BrokenPipeError, OSError):
+        try:
+            sys.stdout = open(os.devnull, "w")
+        except OSError:
+            pass
+
+
 def run_check(pid, fn, level, argv):
     """Common main(): parses --tier / --replay, runs fn(check), exit code."""
     tier = os.environ.get("VERIF_TIER", "quick")
@@ -266,7 +278,10 @@ def run_check(pid, fn, level, argv):
         rc = chk.finish()
     except Exception as e:
         import traceback
-        print("ANALYSIS-ERROR property=%s could not finish: %r\n%s" % (pid, e, traceback.format_exc()))
+        _emit(["ANALYSIS-ERROR property=%s could not finish: %r\n%s" % (pid, e, traceback.format_exc())])
         rc = 2
-    sys.stdout.flush()
+    try:
+        sys.stdout.flush()
+    except (BrokenPipeError, OSError):
+        pass
     return rc
